@@ -52,6 +52,8 @@ class Flow(Distribution):
         embedded_context = self._embedding_net(context)
         if self._context_used_in_base:
             noise = self._distribution.sample(num_samples, context=embedded_context)
+        elif embedded_context is None:
+            noise = self._distribution.sample(num_samples)
         else:
             repeat_noise = self._distribution.sample(num_samples*embedded_context.shape[0])
             noise = torch.reshape(
